@@ -41,6 +41,10 @@ func GetProtocolSchema(protocol *ProtocolDefinition, symbolTable SymbolTable) *P
 
 			schema.Types = append(schema.Types, removeComments(t))
 
+			// (nor the types that only computed fields mention)
+			self.VisitChildren(t)
+			return
+
 		case *SimpleType:
 			self.Visit(symbolTable.GetGenericTypeDefinition(t.ResolvedDefinition))
 			for _, typeArg := range t.ResolvedDefinition.GetDefinitionMeta().TypeParameters {
